@@ -49,6 +49,10 @@ def arc_windows(k, tier):
 
 def jobs(tier):
     J = []
+    # order-4 probes (256 vertices, indices beyond 127): the complete graph and one sparse subset, no free arcs
+    full4 = [[succ(v, j, 4) for j in range(4)] for v in range(256)]
+    J.append(dict(k=4, base=full4, free=[], depth=1))
+    J.append(dict(k=4, base=[[(x if (v * 5 + j) % 3 else -1) for j, x in enumerate(r)] for v, r in enumerate(full4)], free=[], depth=1))
     for k in (1, 2, 3):
         for base, free in arc_windows(k, tier):
             J.append(dict(k=k, base=base, free=[list(a) for a in free], depth=3 if k <= 2 else 2))
@@ -82,7 +86,7 @@ def body(e, L, cfg):
             raise core.Inconclusive("path does not pin the arcs")
         acc = symnp.array(rows)       # the path pins every arc (just certified): continue on the concrete accessor
         live = [v for v in range(N) if any(x >= 0 for x in rows[v])]
-        roots = sorted(set([0, N - 1] + live[:2]))
+        roots = sorted(set([0, N - 1] + live[:2] + ([v for v in live if v >= 128][:2] if N > 64 else [])))
         illegal = None
         for u in range(N):
             for v in range(N):
@@ -128,7 +132,9 @@ def body(e, L, cfg):
                     lb = sorted(core.concrete_int(x) for x in (b.fix_len().elems() if hasattr(b, "fix_len") else list(b)))
                     if la != sorted(cur) or lb != sorted(cur):
                         return fail("leaf query root=%d depth=%d differs from the walk end points" % (root, d))
-            for u in range(N):           # one illegal arc in every row in turn (rows of every out-degree)
+                    if {core.concrete_int(a_): [core.concrete_int(x) for x in b_] for a_, b_ in lm.items()} != {v: [x for x in rows[v] if x >= 0] for v in live}:
+                        return fail("a leaf query modified the latter map it was given")
+            for u in (range(N) if N <= 64 else [0, 1, 127, 128, 129, 200, 254, 255]):           # one illegal arc in every row in turn (order 4: eight sample rows)
                 others = [x for x in range(N) if x not in [succ(u, j, k) for j in range(4)]]
                 if not others:          # order 1: every vertex is a shift successor, no illegal arc exists
                     continue
